@@ -3,7 +3,7 @@
    strings = decimal code points joined by ',' ("-" = empty string); lists are space separated ("" = empty)
      INIT / items of `st`:   D:<lit>:<val>:<imp>   C:<n>   U:<n>
      OP:  set R raw lit nok V P N X | setp R wf lit val imp N X | rm raw N | si R raw lit nok V P | di raw
-          | sa R dom V | da dom | st R malformed item...
+          | sa R dom V | da dom | st R malformed item... | stt R text run=item...
           (R raising, N normalize, X replace: 0/1;  V: E | B | <n>;  P: N | I | B)
      TODOM <str>   (a line of this form answers with toDOM of the string)
    answer: one line, steps joined by '|', each  <outcome>#<items>#<keys>#<len>#<item(i)...>#<iter>#<eff>#<all>#<probe>/<probe>... *)
@@ -34,17 +34,26 @@ let prio_in = function "N" -> PNone | "I" -> PImportant | "B" -> PBad | x -> fai
 let op_in f =
   match words f with
   | ["set"; r; raw; lit; nok; v; p; n; x] ->
-    OSet (b r, ByName ({ raw = str_in raw; plit = str_in lit; nok = b nok }, valarg_in v, prio_in p), b n, b x)
+    OSet (b r, ByName ({ raw0 = str_in raw; plit = str_in lit; nok = b nok }, valarg_in v, prio_in p), b n, b x)
   | ["setp"; r; wf; lit; v; i; n; x] ->
     let l = str_in lit in
     OSet (b r, ByProp (b wf, { lit = l; name = norm_i l; value = n_of_int (int_of_string v); imp = b i }), b n, b x)
   | ["rm"; raw; n] -> ORemove (str_in raw, b n)
   | ["si"; r; raw; lit; nok; v; p] ->
-    OSetItem (b r, { raw = str_in raw; plit = str_in lit; nok = b nok }, valarg_in v, prio_in p)
+    OSetItem (b r, { raw0 = str_in raw; plit = str_in lit; nok = b nok }, valarg_in v, prio_in p)
   | ["di"; raw] -> ODelItem (str_in raw)
   | ["sa"; r; dom; v] -> OSetAttr (b r, str_in dom, valarg_in v)
   | ["da"; dom] -> ODelAttr (str_in dom)
   | "st" :: r :: m :: items -> OSetText (b r, List.map parsed_in items, b m)
+  | "stt" :: r :: text :: tbl ->
+    (* style.cssText = text through tokenizer + declaration-block skeleton; tbl: <run text>=<item or X> *)
+    let entry w = match String.index_opt w '=' with
+      | Some i -> let k = String.sub w 0 i and v = String.sub w (i + 1) (String.length w - i - 1) in
+        (str_in k, if v = "X" then None else Some (parsed_in v))
+      | None -> failwith ("bad table entry " ^ w) in
+    (match settext_of_string_i (List.map entry tbl) (b r) (str_in text) with
+     | Some o -> o
+     | None -> failwith "tokenizer model stuck")
   | _ -> failwith ("bad op " ^ f)
 
 let prop_out p = Printf.sprintf "%s:%s:%d:%s" (str_out p.lit) (str_out p.name) (int_of_n p.value) (bo p.imp)
